@@ -1158,7 +1158,9 @@ class XsdGroup(XsdComponent, MutableSequence[ModelParticleType],
                         errors.append((index - cdata_index, particle, occurs, expected))
                     continue
                 elif isinstance(xsd_element, XsdAnyElement):
-                    value = get_qname(default_namespace, name), value
+                    if not context.converter.is_unqualified(value):
+                        name = get_qname(default_namespace, name)
+                    value = name, value
 
                 for particle, occurs, expected in model.advance(True):
                     errors.append((index - cdata_index, particle, occurs, expected))
@@ -1167,7 +1169,9 @@ class XsdGroup(XsdComponent, MutableSequence[ModelParticleType],
                 errors.append((index - cdata_index, self, 0, []))
                 xsd_element = self.match_element(name)
                 if isinstance(xsd_element, XsdAnyElement):
-                    value = get_qname(default_namespace, name), value
+                    if not context.converter.is_unqualified(value):
+                        name = get_qname(default_namespace, name)
+                    value = name, value
                 elif xsd_element is None:
                     if name.startswith('{') or ':' not in name:
                         reason = _('{!r} does not match any declared element '
